@@ -805,10 +805,12 @@ def partition_by_sum(array, parts):
         )
     cumulative_sum = array.cumsum()
     # Ideally, we want each part to have the same number of points (total /
-    # parts).
-    ideal_sum = cumulative_sum[-1] // parts
+    # parts). Multiply both sides of the comparison by the number of parts
+    # instead of dividing so that the ideal sum is not rounded down.
+    total = cumulative_sum[-1]
+    cumulative_sum = cumulative_sum * parts
     # If the parts are ideal, the cumulative sum of each part will be this
-    ideal_cumsum = np.arange(1, parts) * ideal_sum
+    ideal_cumsum = np.arange(1, parts) * total
     # Find the places in the real cumulative sum where the ideal values would
     # be. These are the split points. Between each split point, the sum of
     # elements will be approximately the ideal sum. Need to insert to the right
@@ -816,9 +818,9 @@ def partition_by_sum(array, parts):
     # part has ideal sum, the last element (i - 1) will be included. Otherwise,
     # we would never have ideal sums.
     indices = np.searchsorted(cumulative_sum, ideal_cumsum, side="right")
-    # Check for repeated split points, which indicates that there is no way to
-    # split the array.
-    if np.unique(indices).size != indices.size:
+    # Check for repeated split points or a split point at the start (an empty
+    # first part), which indicates that there is no way to split the array.
+    if np.unique(indices).size != indices.size or 0 in indices:
         raise ValueError(
             "Could not find partition points to split the array into {} parts "
             "of equal sum.".format(parts)
